@@ -1,1 +1,258 @@
 // Kani contract harnesses for /repo/arrow-cmp/src/lib.rs (child module: sees private items via super::)
+use super::*;
+use arrow_buffer::{BooleanBuffer, Buffer, ScalarBuffer};
+#[path = "/verif/kani/support/spec.rs"]
+mod spec;
+use spec::*;
+
+/// Specification of the slot order on optional values (SortOptions semantics, C10):
+/// null vs null = Equal; null vs value = Less iff nulls_first (independent of `descending`);
+/// value vs value = key order, reversed iff descending.
+fn spec_cmp_opt<K: Ord>(a: Option<K>, b: Option<K>, nulls_first: bool, descending: bool) -> Ordering {
+    match (a, b) {
+        (None, None) => Ordering::Equal,
+        (None, Some(_)) => if nulls_first { Ordering::Less } else { Ordering::Greater },
+        (Some(_), None) => if nulls_first { Ordering::Greater } else { Ordering::Less },
+        (Some(x), Some(y)) => if descending { y.cmp(&x) } else { x.cmp(&y) },
+    }
+}
+fn rev(o: Ordering) -> Ordering {
+    match o { Ordering::Less => Ordering::Greater, Ordering::Greater => Ordering::Less, Ordering::Equal => Ordering::Equal }
+}
+/// 2-slot validity buffer from a symbolic byte (bits 2.. are garbage beyond the length)
+fn nulls2(v: u8) -> NullBuffer { NullBuffer::new(BooleanBuffer::new(Buffer::from(vec![v]), 0, 2)) }
+
+// Contract (C10): child_opts(opts) is the option set under which an ASCENDING child ranking, reversed iff
+// the parent is descending, reproduces the parent's slot order: for all optional values a, b
+//   spec_cmp_opt(a, b, opts) == (if opts.descending { reverse } else { id })(spec_cmp_opt(a, b, child_opts(opts)))
+// (in particular nulls stay where opts.nulls_first puts them), and the child is never descending.
+// @unit name=child_opts_spec props=C10 kind=complete fns=child_opts
+#[kani::proof]
+fn child_opts_spec() {
+    let opts = SortOptions { descending: kani::any(), nulls_first: kani::any() };
+    let c = child_opts(opts);
+    assert!(!c.descending);
+    let a: Option<i8> = if kani::any() { Some(kani::any()) } else { None };
+    let b: Option<i8> = if kani::any() { Some(kani::any()) } else { None };
+    let parent = spec_cmp_opt(a, b, opts.nulls_first, opts.descending);
+    let child = spec_cmp_opt(a, b, c.nulls_first, c.descending);
+    assert!(parent == if opts.descending { rev(child) } else { child });
+    kani::cover!(opts.descending && a.is_none() && b.is_some());
+    kani::cover!(!opts.descending && a.is_some() && b.is_none());
+    kani::cover!(opts.descending && a.is_some() && b.is_some() && parent == Ordering::Less);
+}
+
+// Contract (C10): compare_impl::<NULLS_FIRST, DESCENDING>(l_nulls, r_nulls, cmp) returns a comparator f with
+//   f(i, j) == spec_cmp_opt(left slot i, right slot j) for every i, j < 2, where slot = None iff the
+// corresponding validity bit is 0 (a side without null buffer has no nulls) and values are ordered by `cmp`
+// (here: the integer order of two symbolic i32 columns, supplied by the harness), for each of the four
+// option combinations and each of the four null-buffer presence combinations (16 instances; validity bits,
+// values, indices symbolic). The boxed closure (owns NullBuffers) is forgotten.
+fn cmp_impl<const NF: bool, const DESC: bool, const LN: bool, const RN: bool>() {
+    let lv: [i32; 2] = [kani::any(), kani::any()];
+    let rv: [i32; 2] = [kani::any(), kani::any()];
+    let (lb, rb): (u8, u8) = (kani::any(), kani::any());
+    let l = if LN { Some(nulls2(lb)) } else { None };
+    let r = if RN { Some(nulls2(rb)) } else { None };
+    let f = compare_impl::<NF, DESC, _>(l, r, move |i, j| lv[i].cmp(&rv[j]));
+    let i: usize = kani::any();
+    let j: usize = kani::any();
+    kani::assume(i < 2 && j < 2);
+    let a = if LN && (lb >> i) & 1 == 0 { None } else { Some(lv[i]) };
+    let b = if RN && (rb >> j) & 1 == 0 { None } else { Some(rv[j]) };
+    let got = f(i, j);
+    assert!(got == spec_cmp_opt(a, b, NF, DESC));
+    kani::cover!(a.is_none() != b.is_none() || (!LN && !RN));
+    kani::cover!(a.is_some() && b.is_some() && got == Ordering::Less);
+    kani::cover!(a.is_some() && b.is_some() && got == Ordering::Greater);
+    kani::cover!((a.is_none() && b.is_none()) || !(LN && RN));
+    std::mem::forget(f);
+}
+macro_rules! cmp_impl_unit {
+    ($name:ident, $nf:expr, $d:expr, $ln:expr, $rn:expr) => {
+        #[kani::proof]
+        fn $name() { cmp_impl::<$nf, $d, $ln, $rn>() }
+    };
+}
+// @unit name=cmp_impl_nf_desc_vv props=C10 kind=bounded bound=2_slots_per_side fns=compare_impl timeout=600
+cmp_impl_unit!(cmp_impl_nf_desc_vv, true, true, false, false);
+// @unit name=cmp_impl_nf_desc_vn props=C10 kind=bounded bound=2_slots_per_side fns=compare_impl timeout=600
+cmp_impl_unit!(cmp_impl_nf_desc_vn, true, true, false, true);
+// @unit name=cmp_impl_nf_desc_nv props=C10 kind=bounded bound=2_slots_per_side fns=compare_impl timeout=600
+cmp_impl_unit!(cmp_impl_nf_desc_nv, true, true, true, false);
+// @unit name=cmp_impl_nf_desc_nn props=C10 kind=bounded bound=2_slots_per_side fns=compare_impl timeout=600
+cmp_impl_unit!(cmp_impl_nf_desc_nn, true, true, true, true);
+// @unit name=cmp_impl_nf_asc_vv props=C10 kind=bounded bound=2_slots_per_side fns=compare_impl timeout=600
+cmp_impl_unit!(cmp_impl_nf_asc_vv, true, false, false, false);
+// @unit name=cmp_impl_nf_asc_vn props=C10 kind=bounded bound=2_slots_per_side fns=compare_impl timeout=600
+cmp_impl_unit!(cmp_impl_nf_asc_vn, true, false, false, true);
+// @unit name=cmp_impl_nf_asc_nv props=C10 kind=bounded bound=2_slots_per_side fns=compare_impl timeout=600
+cmp_impl_unit!(cmp_impl_nf_asc_nv, true, false, true, false);
+// @unit name=cmp_impl_nf_asc_nn props=C10 kind=bounded bound=2_slots_per_side fns=compare_impl timeout=600
+cmp_impl_unit!(cmp_impl_nf_asc_nn, true, false, true, true);
+// @unit name=cmp_impl_nl_desc_vv props=C10 kind=bounded bound=2_slots_per_side fns=compare_impl timeout=600
+cmp_impl_unit!(cmp_impl_nl_desc_vv, false, true, false, false);
+// @unit name=cmp_impl_nl_desc_vn props=C10 kind=bounded bound=2_slots_per_side fns=compare_impl timeout=600
+cmp_impl_unit!(cmp_impl_nl_desc_vn, false, true, false, true);
+// @unit name=cmp_impl_nl_desc_nv props=C10 kind=bounded bound=2_slots_per_side fns=compare_impl timeout=600
+cmp_impl_unit!(cmp_impl_nl_desc_nv, false, true, true, false);
+// @unit name=cmp_impl_nl_desc_nn props=C10 kind=bounded bound=2_slots_per_side fns=compare_impl timeout=600
+cmp_impl_unit!(cmp_impl_nl_desc_nn, false, true, true, true);
+// @unit name=cmp_impl_nl_asc_vv props=C10 kind=bounded bound=2_slots_per_side fns=compare_impl timeout=600
+cmp_impl_unit!(cmp_impl_nl_asc_vv, false, false, false, false);
+// @unit name=cmp_impl_nl_asc_vn props=C10 kind=bounded bound=2_slots_per_side fns=compare_impl timeout=600
+cmp_impl_unit!(cmp_impl_nl_asc_vn, false, false, false, true);
+// @unit name=cmp_impl_nl_asc_nv props=C10 kind=bounded bound=2_slots_per_side fns=compare_impl timeout=600
+cmp_impl_unit!(cmp_impl_nl_asc_nv, false, false, true, false);
+// @unit name=cmp_impl_nl_asc_nn props=C10 kind=bounded bound=2_slots_per_side fns=compare_impl timeout=600
+cmp_impl_unit!(cmp_impl_nl_asc_nn, false, false, true, true);
+
+fn mk_i32(v: [i32; 2], nulls: Option<NullBuffer>) -> Int32Array {
+    match Int32Array::try_new(ScalarBuffer::from(vec![v[0], v[1]]), nulls) {
+        Ok(a) => a,
+        Err(e) => { std::mem::forget(e); unreachable!() }
+    }
+}
+fn mk_f32(v: [f32; 2], nulls: Option<NullBuffer>) -> Float32Array {
+    match Float32Array::try_new(ScalarBuffer::from(vec![v[0], v[1]]), nulls) {
+        Ok(a) => a,
+        Err(e) => { std::mem::forget(e); unreachable!() }
+    }
+}
+
+// Contract (C10): compare_primitive::<T>(left, right, opts) on two 2-element arrays (symbolic values,
+// symbolic validity bits incl. the bytes under null slots, symbolic options, every index pair):
+//   f(i, j) == spec_cmp_opt(left[i], right[j], opts)  with values ordered by the mathematical order (Int32)
+// / the IEEE-754 totalOrder key (Float32; spec::key32, independent of arrow's compare). Null-buffer presence
+// is concrete per instance (LN, RN). Reaches compare -> logical_nulls().filter(null_count > 0) ->
+// compare_impl::<..> through the real `&dyn Array` entry point. Arrays and comparator are forgotten.
+macro_rules! cmp_prim {
+    ($name:ident, $arrow:ty, $native:ty, $mk:ident, $key:expr, $ln:expr, $rn:expr) => {
+        #[kani::proof]
+        #[kani::stub(alloc::fmt::format, stub_format)]
+        fn $name() {
+            let lv: [$native; 2] = [kani::any(), kani::any()];
+            let rv: [$native; 2] = [kani::any(), kani::any()];
+            let (lb, rb): (u8, u8) = (kani::any(), kani::any());
+            let left = $mk(lv, if $ln { Some(nulls2(lb)) } else { None });
+            let right = $mk(rv, if $rn { Some(nulls2(rb)) } else { None });
+            let opts = SortOptions { descending: kani::any(), nulls_first: kani::any() };
+            let f = compare_primitive::<$arrow>(&left, &right, opts);
+            let i: usize = kani::any();
+            let j: usize = kani::any();
+            kani::assume(i < 2 && j < 2);
+            let key = $key;
+            let a = if $ln && (lb >> i) & 1 == 0 { None } else { Some(key(lv[i])) };
+            let b = if $rn && (rb >> j) & 1 == 0 { None } else { Some(key(rv[j])) };
+            let got = f(i, j);
+            assert!(got == spec_cmp_opt(a, b, opts.nulls_first, opts.descending));
+            kani::cover!(!($ln || $rn) || (a.is_none() != b.is_none() && opts.nulls_first && opts.descending));
+            kani::cover!(!($ln || $rn) || (a.is_none() != b.is_none() && !opts.nulls_first));
+            kani::cover!(a.is_some() && b.is_some() && got == Ordering::Less && opts.descending);
+            kani::cover!(a.is_some() && b.is_some() && got == Ordering::Less && !opts.descending);
+            kani::cover!(!($ln && $rn) || (a.is_none() && b.is_none()));
+            // a side with a null buffer but no null bit set takes the "filter -> None" path
+            kani::cover!(!$ln || lb & 3 == 3);
+            std::mem::forget(f);
+            std::mem::forget(left);
+            std::mem::forget(right);
+        }
+    };
+}
+// @unit name=cmp_prim_i32_vv props=C10 kind=bounded bound=2_elements_per_side_no_null_buffers fns=compare_primitive,compare,compare_impl mem=3 timeout=900
+cmp_prim!(cmp_prim_i32_vv, Int32Type, i32, mk_i32, |x: i32| x as i64, false, false);
+// @unit name=cmp_prim_i32_nv props=C10 kind=bounded bound=2_elements_per_side_left_null_buffer fns=compare_primitive,compare,compare_impl mem=3 timeout=900
+cmp_prim!(cmp_prim_i32_nv, Int32Type, i32, mk_i32, |x: i32| x as i64, true, false);
+// @unit name=cmp_prim_i32_vn props=C10 kind=bounded bound=2_elements_per_side_right_null_buffer fns=compare_primitive,compare,compare_impl mem=3 timeout=900
+cmp_prim!(cmp_prim_i32_vn, Int32Type, i32, mk_i32, |x: i32| x as i64, false, true);
+// @unit name=cmp_prim_i32_nn props=C10 kind=bounded bound=2_elements_per_side_both_null_buffers fns=compare_primitive,compare,compare_impl mem=3 timeout=900
+cmp_prim!(cmp_prim_i32_nn, Int32Type, i32, mk_i32, |x: i32| x as i64, true, true);
+// @unit name=cmp_prim_f32_vv props=C10 kind=bounded bound=2_elements_per_side_no_null_buffers fns=compare_primitive,compare,compare_impl mem=3 timeout=900
+cmp_prim!(cmp_prim_f32_vv, Float32Type, f32, mk_f32, |x: f32| key32(x.to_bits()), false, false);
+// @unit name=cmp_prim_f32_nn props=C10 kind=bounded bound=2_elements_per_side_both_null_buffers fns=compare_primitive,compare,compare_impl mem=3 timeout=900
+cmp_prim!(cmp_prim_f32_nn, Float32Type, f32, mk_f32, |x: f32| key32(x.to_bits()), true, true);
+
+// Contract (C10): compare_boolean on two 2-element BooleanArrays: f(i, j) == spec_cmp_opt with false < true,
+// nulls per options; value bits, validity bits, options, indices symbolic; null-buffer presence per instance.
+macro_rules! cmp_bool {
+    ($name:ident, $ln:expr, $rn:expr) => {
+        #[kani::proof]
+        #[kani::stub(alloc::fmt::format, stub_format)]
+        fn $name() {
+            let (lvb, rvb): (u8, u8) = (kani::any(), kani::any());
+            let (lb, rb): (u8, u8) = (kani::any(), kani::any());
+            let left = BooleanArray::new(BooleanBuffer::new(Buffer::from(vec![lvb]), 0, 2), if $ln { Some(nulls2(lb)) } else { None });
+            let right = BooleanArray::new(BooleanBuffer::new(Buffer::from(vec![rvb]), 0, 2), if $rn { Some(nulls2(rb)) } else { None });
+            let opts = SortOptions { descending: kani::any(), nulls_first: kani::any() };
+            let f = compare_boolean(&left, &right, opts);
+            let i: usize = kani::any();
+            let j: usize = kani::any();
+            kani::assume(i < 2 && j < 2);
+            let a = if $ln && (lb >> i) & 1 == 0 { None } else { Some((lvb >> i) & 1) };
+            let b = if $rn && (rb >> j) & 1 == 0 { None } else { Some((rvb >> j) & 1) };
+            let got = f(i, j);
+            assert!(got == spec_cmp_opt(a, b, opts.nulls_first, opts.descending));
+            kani::cover!(!($ln || $rn) || (a.is_none() != b.is_none() && opts.nulls_first));
+            kani::cover!(a == Some(0) && b == Some(1) && got == Ordering::Greater);
+            kani::cover!(a == Some(0) && b == Some(1) && got == Ordering::Less);
+            std::mem::forget(f);
+            std::mem::forget(left);
+            std::mem::forget(right);
+        }
+    };
+}
+// @unit name=cmp_bool_vv props=C10 kind=bounded bound=2_elements_per_side_no_null_buffers fns=compare_boolean,compare,compare_impl mem=3 timeout=900
+cmp_bool!(cmp_bool_vv, false, false);
+// @unit name=cmp_bool_nn props=C10 kind=bounded bound=2_elements_per_side_both_null_buffers fns=compare_boolean,compare,compare_impl mem=3 timeout=900
+cmp_bool!(cmp_bool_nn, true, true);
+
+/// first-difference scan, then length (shorter prefix is smaller): the lexicographic byte-string order
+fn lex_s(a: &[u8], b: &[u8]) -> Ordering {
+    let n = if a.len() < b.len() { a.len() } else { b.len() };
+    let mut i = 0;
+    while i < n {
+        if a[i] != b[i] { return if a[i] < b[i] { Ordering::Less } else { Ordering::Greater }; }
+        i += 1;
+    }
+    if a.len() < b.len() { Ordering::Less } else if a.len() > b.len() { Ordering::Greater } else { Ordering::Equal }
+}
+
+// Contract (C10): compare_bytes::<BinaryType> on two 2-element binary arrays with concrete value lengths
+// (left: 2 and 1 bytes, right: 1 and 3 bytes), symbolic contents / validity / options / indices:
+// f(i, j) == null table, values by lexicographic byte order (first difference, then length), reversed iff
+// descending. (std's slice Ord is what the code calls; the spec is the scan above.)
+// @unit name=cmp_bytes_nn props=C10 kind=bounded bound=2_elements_per_side_value_lengths_2_1_and_1_3 fns=compare_bytes,compare,compare_impl mem=4 timeout=900 tier=thorough note=not_confirmed_under_load
+#[kani::proof]
+#[kani::stub(alloc::fmt::format, stub_format)]
+fn cmp_bytes_nn() {
+    let ld: [u8; 3] = kani::any();
+    let rd: [u8; 4] = kani::any();
+    let (lb, rb): (u8, u8) = (kani::any(), kani::any());
+    let left = unsafe { GenericBinaryArray::<i32>::new_unchecked(
+        arrow_buffer::OffsetBuffer::new_unchecked(ScalarBuffer::from(vec![0i32, 2, 3])), Buffer::from(vec![ld[0], ld[1], ld[2]]), Some(nulls2(lb))) };
+    let right = unsafe { GenericBinaryArray::<i32>::new_unchecked(
+        arrow_buffer::OffsetBuffer::new_unchecked(ScalarBuffer::from(vec![0i32, 1, 4])), Buffer::from(vec![rd[0], rd[1], rd[2], rd[3]]), Some(nulls2(rb))) };
+    let opts = SortOptions { descending: kani::any(), nulls_first: kani::any() };
+    let f = compare_bytes::<BinaryType>(&left, &right, opts);
+    let i: usize = kani::any();
+    let j: usize = kani::any();
+    kani::assume(i < 2 && j < 2);
+    let lo = [0usize, 2, 3];
+    let ro = [0usize, 1, 4];
+    let (ls, rs) = (&ld[lo[i]..lo[i + 1]], &rd[ro[j]..ro[j + 1]]);
+    let got = f(i, j);
+    let (an, bn) = ((lb >> i) & 1 == 0, (rb >> j) & 1 == 0);
+    let want = match (an, bn) {
+        (true, true) => Ordering::Equal,
+        (true, false) => if opts.nulls_first { Ordering::Less } else { Ordering::Greater },
+        (false, true) => if opts.nulls_first { Ordering::Greater } else { Ordering::Less },
+        (false, false) => if opts.descending { rev(lex_s(ls, rs)) } else { lex_s(ls, rs) },
+    };
+    assert!(got == want);
+    kani::cover!(!an && !bn && i == 0 && j == 1 && ld[0] == rd[1] && ld[1] == rd[2] && got == Ordering::Less); // proper prefix
+    kani::cover!(!an && !bn && got == Ordering::Equal);
+    kani::cover!(an && !bn);
+    std::mem::forget(f);
+    std::mem::forget(left);
+    std::mem::forget(right);
+}
